@@ -79,6 +79,7 @@ def run_contract_search(key, tier, seed):
 def run_bounded(cid, tier, seed):
     from pyvc import bounded, rtc
     bounded.load_all()
+    rtc.import_repo()
     chk = bounded.CHECKS[cid]
     rng = random.Random(("%s|%s" % (seed, cid)))
     out = {"id": cid, "evaluations": 0, "nontrivial": 0, "failures": [], "status": "ok", "samples": [], "doc": chk.doc.strip()}
